@@ -513,3 +513,324 @@ class MediaWorld(MediaBase):
 
 def run(spec):
     return run_world(spec, gen_media, MediaWorld)
+
+
+# ===========================================================================
+# dtls_sim (C04): fingerprints, SRTP profiles, roles, and what gets through
+# ===========================================================================
+SUPPORTED = ["sha-256", "sha-384", "sha-512"]
+UNSUPPORTED = ["sha-1", "md5", "sha-224", "sha3-256", "sha256", "sha_512", ""]
+
+
+def gen_dtls(ch, spec):
+    cfg = {"world": "dtls"}
+    for side in "AB":
+        n = ch.choice("cfg", [1, 1, 2, 3, 4])
+        entries = []
+        plan = ch.choice("cfg", ["good", "good", "good", "mixed", "mixed", "unsupported-only"])
+        for i in range(n):
+            r = ch.index("cfg", 100)
+            if plan == "unsupported-only" or (plan == "mixed" and r < 30):
+                entries.append({"alg": ch.choice("cfg", UNSUPPORTED), "kind": "unsupported",
+                                "value": ch.choice("cfg", ["AA:BB:CC", "", "00", "zz"])})
+                continue
+            alg = ch.choice("cfg", SUPPORTED)
+            kind = "bad" if (plan == "mixed" and r >= 75) else "good"
+            entries.append({"alg": alg, "algcase": ch.choice("cfg", ["lower", "lower", "upper", "title"]),
+                            "kind": kind, "case": ch.choice("cfg", ["upper", "lower", "mixed"]),
+                            "flip": ch.randint("cfg", 0, 1000, 0)})
+        cfg["fp_" + side] = entries
+        k = ch.choice("cfg", [3, 3, 2, 1])
+        perm = [0, 1, 2]
+        for i in range(2, 0, -1):
+            j = ch.index("cfg", i + 1)
+            perm[i], perm[j] = perm[j], perm[i]
+        cfg["profiles_" + side] = perm[:k]
+    cfg["roles"] = ch.choice("cfg", ["auto", "auto", "A-server", "A-client"])
+    base = ch.choice("cfg", [0.002, 0.03, 0.4])
+    p = Profile(base=base, jitter=ch.choice("cfg", [0.0, 0.01, 0.2]))
+    p.corrupt = ch.choice("cfg", [0.0, 0.05, 0.2, 0.5])
+    cfg["net"] = p.to_json()
+    cfg["sched"] = ch.chance("cfg", 0.7, True)
+    n = ch.choice("wl", [4, 10, 25, 60])
+    ops = []
+    for _ in range(n):
+        ops.append({"dir": ch.choice("wl", ["A", "B"]), "kind": ch.choice("wl", ["rtp", "rtp", "rtcp", "data"]),
+                    "size": ch.choice("wl", [0, 1, 20, 200, 1000, 1150]), "dt": ch.choice("wl", [0.0, 0.001, 0.02, 0.2])})
+    return cfg, ops
+
+
+class FakeRtpReceiver:
+    def __init__(self, world, side):
+        self.world, self.side = world, side
+
+    def _handle_disconnect(self):
+        self.world.got[self.side].append(("disconnect",))
+
+    async def _handle_rtcp_packet(self, packet):
+        self.world.on_got(self.side, "rtcp-r", packet)
+
+    async def _handle_rtp_packet(self, packet, arrival_time_ms):
+        self.world.on_got(self.side, "rtp", packet)
+
+
+class FakeRtpSender:
+    def __init__(self, world, side, ssrc):
+        self.world, self.side, self._ssrc = world, side, ssrc
+
+    async def _handle_rtcp_packet(self, packet):
+        self.world.on_got(self.side, "rtcp-s", packet)
+
+
+class FakeDataReceiver:
+    def __init__(self, world, side):
+        self.world, self.side = world, side
+
+    async def _handle_data(self, data):
+        self.world.on_got(self.side, "data", data)
+
+
+class DtlsWorld(MediaBase):
+    engine = "media_sim"
+    SSRC = {"A": 0x11110000, "B": 0x22220000}      # the media each side sends
+
+    def __init__(self, spec, ch, cfg, ops):
+        super().__init__(spec, ch, cfg, ops)
+        fakes.SerialHash.install(FakeRtpReceiver) if False else None
+        p = Profile.from_json(cfg["net"])
+        clean = Profile(base=p.base, jitter=p.jitter)
+        for key in (("A", "B"), ("B", "A")):
+            self.fabric.class_profiles[key] = {"dtls-hs": Profile(base=p.base), "srtp": p, "srtcp": p, "dtls-app": p}
+            self.fabric.profiles[key] = clean
+        self.fabric.taps.append(self.on_wire)
+        self.got = {"A": [], "B": []}
+        self.sent = {"A": [], "B": []}          # (kind, key, wire bytes id)
+        self.altered = {"A": 0, "B": 0}
+        self.wire = {}                          # id(datagram bytes) bookkeeping is by order: see on_wire
+        self.pending = {"A": [], "B": []}       # sends whose datagram fate is not yet known
+        self.counter = 0
+
+    # the link tells us what happened to every datagram; sends are matched in order
+    def on_wire(self, src, dst, event, data, info):
+        if event != "send":
+            return
+        cls = fakes.classify_datagram(data)
+        if cls == "dtls-hs" or not self.pending[src]:
+            return
+        item = self.pending[src].pop(0)
+        item["fate"] = "altered" if (info["act"] == "corrupt" and info.get("bad") != data) else "intact"
+
+    def fingerprints(self, side, peer_cert):
+        import hashlib
+        from cryptography.hazmat.primitives.serialization import Encoding
+        der = peer_cert._cert.public_bytes(Encoding.DER)
+        out = []
+        for e in self.cfg["fp_" + side]:
+            if e["kind"] == "unsupported":
+                out.append(dtlsmod.RTCDtlsFingerprint(algorithm=e["alg"], value=e["value"]))
+                continue
+            hx = hashlib.new(e["alg"].replace("-", "")).hexdigest() if False else \
+                hashlib.new(e["alg"].replace("-", ""), der).hexdigest()
+            if e["kind"] == "bad":
+                i = e["flip"] % len(hx)
+                hx = hx[:i] + ("0" if hx[i] != "0" else "f") + hx[i + 1:]
+            val = ":".join(hx[i:i + 2] for i in range(0, len(hx), 2))
+            val = {"upper": val.upper(), "lower": val.lower(),
+                   "mixed": "".join(c.upper() if k % 3 else c.lower() for k, c in enumerate(val))}[e["case"]]
+            alg = {"lower": e["alg"], "upper": e["alg"].upper(), "title": e["alg"].title()}[e["algcase"]]
+            out.append(dtlsmod.RTCDtlsFingerprint(algorithm=alg, value=val))
+        return out
+
+    def expect_identity_ok(self, side):
+        sup = [e for e in self.cfg["fp_" + side] if e["kind"] != "unsupported"]
+        return bool(sup) and all(e["kind"] == "good" for e in sup)
+
+    def on_got(self, side, kind, obj):
+        try:
+            if kind == "data":
+                self.got[side].append(("data", bytes(obj)))
+            elif kind == "rtp":
+                self.got[side].append(("rtp", (obj.ssrc, obj.sequence_number, obj.timestamp, obj.payload_type,
+                                               obj.marker, bytes(obj.payload))))
+            else:
+                self.got[side].append((kind, type(obj).__name__, getattr(obj, "ssrc", None)))
+            self.log.add("got", side, kind)
+        except Exception as exc:  # noqa
+            self.harness_note(exc)
+
+    async def main(self):
+        cfg = self.cfg
+        pair = self.pair = TransportPair(self, names=("A", "B"))
+        certs = fakes.certificate_pool()
+        all_profiles = list(dtlsmod.SRTP_PROFILES)
+        for i, n in enumerate("AB"):
+            pair.dtls[n]._srtp_profiles = [all_profiles[j] for j in cfg["profiles_" + n] if j < len(all_profiles)] \
+                or all_profiles[:1]
+        if cfg["roles"] == "A-server":
+            pair.dtls["A"]._set_role("server")
+            pair.dtls["B"]._set_role("client")
+        elif cfg["roles"] == "A-client":
+            pair.dtls["A"]._set_role("client")
+            pair.dtls["B"]._set_role("server")
+        params = {"A": dtlsmod.RTCDtlsParameters(fingerprints=self.fingerprints("A", certs[1 % len(certs)])),
+                  "B": dtlsmod.RTCDtlsParameters(fingerprints=self.fingerprints("B", certs[0]))}
+        # fake parties, registered before the handshake so that nothing can slip by
+        self.parties = {}
+        for n in "AB":
+            peer = "B" if n == "A" else "A"
+            rcv, snd, dat = FakeRtpReceiver(self, n), FakeRtpSender(self, n, self.SSRC[n]), FakeDataReceiver(self, n)
+            rparams = RTCRtpReceiveParameters(
+                codecs=[RTCRtpCodecParameters(mimeType="video/VP8", clockRate=90000, payloadType=96)],
+                encodings=[RTCRtpDecodingParameters(ssrc=self.SSRC[peer], payloadType=96)])
+            pair.dtls[n]._register_rtp_receiver(rcv, rparams)
+            pair.dtls[n]._register_rtp_sender(snd, RTCRtpSendParameters())
+            pair.dtls[n]._register_data_receiver(dat)
+            self.parties[n] = (rcv, snd, dat)
+        await pair.connect(dtls_params=params)
+        states = {n: pair.dtls[n].state for n in "AB"}
+        common = [j for j in cfg["profiles_A"] if j in cfg["profiles_B"]]
+        want = {}
+        for n in "AB":
+            want[n] = "connected" if (self.expect_identity_ok(n) and common) else "failed"
+        self.log.add("states", tuple(sorted(states.items())), tuple(sorted(want.items())))
+        self.probes["verdict_%s_%s" % (want["A"], want["B"])] += 1
+        for n in "AB":
+            if states[n] != want[n]:
+                why = "fingerprints" if common else "no-common-srtp-profile"
+                self.violation("C04", "state-%s-but-%s-expected:%s" % (states[n], want[n], why),
+                               "side %s fingerprints=%r profiles A=%r B=%r roles=%s" % (
+                                   n, cfg["fp_" + n], cfg["profiles_A"], cfg["profiles_B"], cfg["roles"]))
+                return
+        # traffic
+        seq = {"A": 100, "B": 60000}
+        for op in self.ops:
+            if op["dt"]:
+                await asyncio.sleep(op["dt"])
+            n = op["dir"]
+            await self.loop.create_task(self.send_one(n, op, seq), context=pair.ctx[n])
+        await asyncio.sleep(3.0)
+        self.final(states)
+        self.link_faults(self.fabric.links)
+
+    async def send_one(self, n, op, seq):
+        pair = self.pair
+        d = pair.dtls[n]
+        self.counter += 1
+        body = bytes(((self.counter * 31 + i * 7) & 0xFF) for i in range(op["size"]))
+        item = {"kind": op["kind"], "fate": None}
+        try:
+            if op["kind"] == "data":
+                payload = b"D%06d" % self.counter + body
+                item["key"] = ("data", payload)
+                self.pending[n].append(item)
+                await d._send_data(payload)
+            elif op["kind"] == "rtp":
+                seq[n] = (seq[n] + 1) & 0xFFFF
+                ts = (self.counter * 3000) & 0xFFFFFFFF
+                marker = self.counter & 1
+                pkt = struct.pack("!BBHLL", 0x80, (marker << 7) | 96, seq[n], ts, self.SSRC[n]) + body
+                item["key"] = ("rtp", (self.SSRC[n], seq[n], ts, 96, marker, body))
+                self.pending[n].append(item)
+                await d._send_rtp(pkt)
+            else:
+                peer = "B" if n == "A" else "A"
+                # SR about my media (to the peer's receiver) + RR block about the peer's media (to its sender)
+                sr = struct.pack("!BBHL", 0x81, 200, 12, self.SSRC[n]) + struct.pack("!QLLL", self.counter, 0, 1, 2) \
+                    + struct.pack("!LBBHLLLL", self.SSRC[peer], 0, 0, 0, 0, 0, 0, 0)
+                item["key"] = ("rtcp", self.counter)
+                self.pending[n].append(item)
+                await d._send_rtp(sr)
+            self.sent[n].append(item)
+            self.probes["sent_" + op["kind"]] += 1
+        except ConnectionError:
+            if item in self.pending[n]:
+                self.pending[n].remove(item)
+            item["refused"] = True
+            self.sent[n].append(item)
+            self.probes["send_refused"] += 1
+        except Exception as exc:  # noqa
+            if item in self.pending[n]:
+                self.pending[n].remove(item)
+            item["refused"] = True
+            self.sent[n].append(item)
+            if self.ssl_dead():
+                self.violation("C04", self.DEAD_SIG, "side %s: sending %s raised %r; %s" % (n, op["kind"], exc, self.ssl_dead()))
+            else:
+                self.violation("C04", "send-raised:" + exc_tag(exc), "side %s kind %s: %r" % (n, op["kind"], exc))
+
+    DEAD_SIG = "dtls-association-dead-after-altered-dtls-record"
+
+    def ssl_dead(self):
+        """OpenSSL gave up on the DTLS association (fatal record-layer error on one side, alert received on the
+        other) after an altered application-data record arrived: diagnosis for the known finding."""
+        altered = any(it["kind"] == "data" and it.get("fate") == "altered" for n in "AB" for it in self.sent[n])
+        if not altered:
+            return None
+        out = []
+        for n in "AB":
+            ssl = self.pair.dtls[n]._ssl
+            try:
+                if ssl is not None and (ssl.get_shutdown() or ssl.get_state_string() == b"error"):
+                    out.append("%s: shutdown=%d state=%r" % (n, ssl.get_shutdown(), ssl.get_state_string()))
+            except Exception:  # noqa
+                pass
+        return "; ".join(out) or None
+
+    def final(self, states):
+        dead = self.ssl_dead() if all(states[n] == "connected" for n in "AB") else None
+        if dead:
+            self.violation("C04", self.DEAD_SIG, "after an altered DTLS application record OpenSSL abandoned the association "
+                           "(%s): later messages are lost although both transports report connected" % dead)
+            return
+        for n in "AB":
+            peer = "B" if n == "A" else "A"
+            if states[n] == "failed":
+                if self.got[n]:
+                    self.violation("C04", "failed-transport-delivered-something",
+                                   "side %s got %r" % (n, [g[0] for g in self.got[n]][:6]))
+                if any(not it.get("refused") for it in self.sent[n]):
+                    self.violation("C04", "failed-transport-accepted-a-send", "side %s" % n)
+                continue
+            if self.pair.dtls[n].state != "connected":
+                self.violation("C04", "transport-left-connected-state",
+                               "side %s now %s" % (n, self.pair.dtls[n].state))
+                continue
+            if states[peer] != "connected":
+                continue
+            # n is the receiving side of what peer sent
+            want_rtp = [it["key"][1] for it in self.sent[peer] if it["kind"] == "rtp" and it["fate"] == "intact"]
+            want_data = [it["key"][1] for it in self.sent[peer] if it["kind"] == "data" and it["fate"] == "intact"]
+            n_rtcp = sum(1 for it in self.sent[peer] if it["kind"] == "rtcp" and it["fate"] == "intact")
+            self.altered[peer] = sum(1 for it in self.sent[peer] if it["fate"] == "altered")
+            got_rtp = [g[1] for g in self.got[n] if g[0] == "rtp"]
+            got_data = [g[1] for g in self.got[n] if g[0] == "data"]
+            got_r = sum(1 for g in self.got[n] if g[0] == "rtcp-r")
+            got_s = sum(1 for g in self.got[n] if g[0] == "rtcp-s")
+            if sorted(got_rtp) != sorted(want_rtp):
+                extra = [g for g in got_rtp if g not in want_rtp]
+                self.violation("C04", "rtp-%s" % ("altered-or-foreign-packet-delivered" if extra else "intact-packet-not-delivered"),
+                               "to %s: sent intact %d, delivered %d, not sent as such %d" % (n, len(want_rtp), len(got_rtp), len(extra)))
+            if sorted(got_data) != sorted(want_data):
+                extra = [g for g in got_data if g not in want_data]
+                self.violation("C04", "data-%s" % ("altered-or-foreign-message-delivered" if extra else "intact-message-not-delivered"),
+                               "to %s: sent intact %d, delivered %d, not sent as such %d" % (n, len(want_data), len(got_data), len(extra)))
+            if got_r != n_rtcp or got_s != n_rtcp:
+                self.violation("C04", "rtcp-delivery-mismatch", "to %s: intact compound packets %d, receiver got %d, sender got %d" % (
+                    n, n_rtcp, got_r, got_s))
+            self.probes["delivered_rtp"] += len(got_rtp)
+            self.probes["delivered_data"] += len(got_data)
+            self.probes["altered_in_transit"] += self.altered[peer]
+
+    def config_class(self):
+        return "%s/%d-%d" % (self.cfg["roles"], len(self.cfg["profiles_A"]), len(self.cfg["profiles_B"]))
+
+    def nontrivial(self):
+        return len(self.ops) > 0
+
+    def sample(self):
+        return {"states": {n: self.pair.dtls[n].state for n in "AB"} if hasattr(self, "pair") else None,
+                "delivered": {n: len(self.got[n]) for n in "AB"}}
+
+
+def run_dtls(spec):
+    return run_world(spec, gen_dtls, DtlsWorld)
